@@ -1,7 +1,6 @@
 package eng
 
 import (
-	"syscall"
 	"os"
 	"bufio"
 	"fmt"
@@ -51,11 +50,12 @@ func StartSolver(kind string, timeoutMs int) (*Solver, error) {
 		return nil, err
 	}
 	cmd.Stderr = cmd.Stdout
-	// a solver must not outlive the checker (a killed check would leave it spinning on its last query)
-	cmd.SysProcAttr = &syscall.SysProcAttr{Pdeathsig: syscall.SIGKILL}
 	if err := cmd.Start(); err != nil {
 		return nil, err
 	}
+	solverProcsMu.Lock()
+	solverProcs = append(solverProcs, cmd)
+	solverProcsMu.Unlock()
 	s := &Solver{Kind: kind, cmd: cmd, in: in, out: bufio.NewReaderSize(out, 1<<20), defined: map[int]bool{}, timeoutMs: timeoutMs}
 	if d := os.Getenv("VERIF_SMT_LOG"); d != "" {
 		solverSeq++
@@ -557,4 +557,22 @@ func (p *Pool) Solve(as []*Term, vars []*Term) (string, Model, string) {
 		}
 	}
 	return r, m, kind
+}
+
+
+// KillSolvers ends every solver process started so far (called when the checker itself is told to terminate, so that
+// no solver is left spinning on its last query).
+var (
+	solverProcsMu sync.Mutex
+	solverProcs   []*exec.Cmd
+)
+
+func KillSolvers() {
+	solverProcsMu.Lock()
+	defer solverProcsMu.Unlock()
+	for _, c := range solverProcs {
+		if c.Process != nil {
+			c.Process.Kill()
+		}
+	}
 }
